@@ -75,6 +75,9 @@ def gen_cases(tier, seed):
             case["history"] = ["used", "used_moved"][(k // 8) % 2 if k % 8 == 1 else 1 - (k // 8) % 2]
         if k % 8 == 2 and not case.get("remesh"):
             case["history"] = "layer_edited"  # material parameters of the same Device object swept between solves
+        if k % 8 == 4 and not case.get("remesh") and not case.get("history"):
+            case["history"] = "used_shifted"  # solved, then moved in place for good: the run is made at the new place
+            case["shift_frac"] = [0.23, 0.02][(k // 8) % 2]  # far / by a fraction of a contact's width
         cases.append(case)
     nweak = 3 if tier == "quick" else 16
     for k in range(nweak):
